@@ -310,6 +310,9 @@ func (p *Program) runPathWith(job Job, solver *smt.Solver, trail []Decision, wan
 		done: make(chan any, 1), killed: make(chan struct{}),
 	}
 	m.conc = conc
+	if job.Cfg.Params["race"] > 0 {
+		m.race = newRaceState()
+	}
 	if pb := job.Cfg.Params["preempt"]; pb > 0 {
 		m.preemptMode = true
 		m.preemptLeft = int(pb)
